@@ -23,7 +23,9 @@ import numpy as np
 KINDS = {"Groups": "group", "Objects": "object", "Data": "data"}
 ARRAY_ATTRS = ["vertices", "cells", "values", "octree_cells", "surveys", "trace", "u_cell_delimiters",
                "v_cell_delimiters", "z_cell_delimiters", "layers", "prisms"]
-SKIP_KEYS = {"ID", "Name", "Allow delete", "PropertyGroups", "Clipping IDs"}
+SKIP_KEYS = {"ID", "Name", "Allow delete", "PropertyGroups", "Clipping IDs",
+             # bookkeeping of the concatenated storage of a drillhole group (model M2, C04)
+             "Attributes", "Attributes Jsons", "Concatenated object IDs", "Property Groups IDs", "Property Group IDs"}
 
 
 class Uids:
@@ -120,8 +122,10 @@ def ent_record(uids: Uids, e):
             pgs.append({"uid": uids.num(g.uid), "name": g.name,
                         "props": sorted(uids.num(p) for p in (g.properties or []))})
             pg_order[g.name] = [uids.num(p) for p in (g.properties or [])]      # members in the stored order (C12)
+    # comments and visual parameters get a data type of their own with every creation and copy: which one is not compared
+    typ = 0 if type(e).__name__ in ("CommentsData", "VisualParameters") else uids.num(e.entity_type.uid)
     return {"uid": uids.num(e.uid), "kind": kind_of(e), "cls": type(e).__name__,
-            "typ": uids.num(e.entity_type.uid), "name": e.name, "ad": bool(e.allow_delete),
+            "typ": typ, "name": e.name, "ad": bool(e.allow_delete),
             "attrs": attrs, "dsets": dsets, "pgs": sorted(pgs, key=lambda g: g["uid"]), "pg_order": pg_order}
 
 
@@ -214,6 +218,8 @@ def raw_file(path, uids: Uids):
                     tnode = node["Type"]
                     tid = tok(tnode.attrs.get("ID", ""))
                     rec["typ"] = uids.num(tid.strip("{}")) if tid else 0
+                    if kind == "data" and rec["name"] in ("UserComments", "Visual Parameters"):
+                        rec["typ"] = 0      # as in ent_record
                     tk = {"data": "Data types", "group": "Group types", "object": "Object types"}[kind]
                     if types.get((tk, tid)) != addr(tnode):
                         problems.append(f"{cont}/{key}: Type is not the shared node Types/{tk}/{tid}")
@@ -258,7 +264,7 @@ def file_structure(fj):
 # histories
 # ---------------------------------------------------------------------------------------------
 
-GROUP_CLASSES = ["ContainerGroup", "ContainerGroup", "SimPEGGroup", "GiftoolsGroup"]
+GROUP_CLASSES = ["ContainerGroup", "ContainerGroup", "SimPEGGroup", "GiftoolsGroup", "ContainerGroup", "DrillholeGroup"]
 OBJECT_CLASSES = ["Points", "Points", "Curve", "Surface", "Grid2D", "BlockModel"]
 DATA_TYPES = ["FLOAT", "FLOAT", "INTEGER", "TEXT", "REFERENCED"]
 
@@ -267,7 +273,7 @@ def gen_ops(rng, n, weights=None, pool_uids=0):
     """Abstract operations; targets are indices resolved against the live tree at run time."""
     w = {"create_group": 3, "create_object": 5, "add_data": 7, "rename": 2, "flag": 2, "set_values": 3,
          "set_geometry": 2, "move": 3, "remove_ws": 3, "remove_parent": 2, "copy": 3, "pg_add": 3, "pg_remove": 1,
-         "reopen": 2, "gc": 1, "protect": 1, "retype": 1, "reattach": 1}
+         "reopen": 2, "gc": 1, "protect": 1, "retype": 1, "reattach": 1, "comment": 2, "visual": 1}
     w.update(weights or {})
     kinds = [k for k, c in w.items() for _ in range(c)]
     ops = []
@@ -345,7 +351,14 @@ class Session:
         ws = self.ws
         ents = self.entities()
         k = op["k"]
-        is_group = lambda e: isinstance(e, Group)  # noqa: E731
+        from geoh5py.shared.concatenation import Concatenator
+        # a drillhole group only takes drillholes (concatenated storage, model M2): it is never chosen as the parent of
+        # the groups and objects of these histories, but it carries comments like any other group
+        is_group = lambda e: isinstance(e, Group) and not isinstance(e, Concatenator)  # noqa: E731
+        is_any_group = lambda e: isinstance(e, Group)  # noqa: E731
+        # comments and visual parameters are recognised by their reserved names: they are created, edited through their
+        # owner, copied with their owner and removed, but not renamed, moved or copied on their own
+        special = lambda e: type(e).__name__ in ("CommentsData", "VisualParameters")  # noqa: E731
         is_obj = lambda e: isinstance(e, ObjectBase)  # noqa: E731
         is_data = lambda e: isinstance(e, Data)  # noqa: E731
         not_root = lambda e: e is not ws.root  # noqa: E731
@@ -418,8 +431,36 @@ class Session:
                 "attrs": {}, "dsets": {}, "pgs": []}
             self.record({"o": "create", "parent": self.uids.num(parent.uid), "ent": ent}, status)
             return
+        if k == "comment":
+            e = self.pick(ents, op["a"], lambda x: not_root(x) and (is_any_group(x) or is_obj(x)))
+            if op["c"] % 3 == 0:
+                dh = [x for x in ents if isinstance(x, Concatenator)]
+                if dh:
+                    e = dh[op["a"] % len(dh)]
+                del dh
+            if e is None:
+                return
+            had = e.comments
+            e.add_comment(f"note {op['b'] % 100}", author="harness")
+            com = e.comments
+            self.events.append(f"comment on {self.uids.num(e.uid)}")
+            if had is None:
+                self.record({"o": "create", "parent": self.uids.num(e.uid), "ent": ent_record(self.uids, com)}, "ok")
+            else:
+                self.record({"o": "setDset", "u": self.uids.num(com.uid), "key": "values", "tok": tok(com.values)}, "ok")
+            del had, com
+            return
+        if k == "visual":
+            o = self.pick(ents, op["a"], lambda x: is_obj(x) and x.visual_parameters is None)
+            if o is None:
+                return
+            vp = o.add_default_visual_parameters()
+            self.events.append(f"visual parameters on {self.uids.num(o.uid)}")
+            self.record({"o": "create", "parent": self.uids.num(o.uid), "ent": ent_record(self.uids, vp)}, "ok")
+            del vp
+            return
         if k == "rename":
-            e = self.pick(ents, op["a"], not_root)
+            e = self.pick(ents, op["a"], lambda x: not_root(x) and not special(x))
             if e is None:
                 return
             name = self.next_name("n")
@@ -496,7 +537,7 @@ class Session:
             self.events.append(f"set geometry of {self.uids.num(e.uid)}")
             return
         if k == "move":
-            e = self.pick(ents, op["a"], lambda x: not_root(x))
+            e = self.pick(ents, op["a"], lambda x: not_root(x) and not special(x))
             if e is None:
                 return
             compat = lambda d, x: (is_obj(x) and type(x) is type(d.parent) and x is not d.parent  # noqa: E731
@@ -528,6 +569,8 @@ class Session:
             # (for the model a move to the parent it already has), the file link is only restored when the workspace is closed
             def movable(x):
                 if not not_root(x) or not x.allow_delete:
+                    return False
+                if special(x):
                     return False
                 if is_data(x):
                     return not any(x.uid in (g.properties or []) for g in (getattr(x.parent, "property_groups", None) or []))
@@ -594,7 +637,7 @@ class Session:
                 self.check_removed(sub, k)
             return
         if k == "copy":
-            e = self.pick(ents, op["a"], lambda x: not_root(x))
+            e = self.pick(ents, op["a"], lambda x: not_root(x) and not special(x))
             if e is None:
                 return
             if is_data(e):
